@@ -491,6 +491,8 @@ def feasible(events):
     if e.kind == 'stmt' and isinstance(e.node, ast.Assign) and len(e.node.targets) == 1 and isinstance(e.node.targets[0], ast.Name):
       if isinstance(e.node.value, ast.Constant):
         consts[e.node.targets[0].id] = bool(e.node.value.value)
+      elif isinstance(e.node.value, ast.Name) and e.node.value.id in consts:
+        consts[e.node.targets[0].id] = consts[e.node.value.id]     # copy of a constant flag
       else:
         consts.pop(e.node.targets[0].id, None)
     elif e.kind in ('stmt', 'for_iter', 'with_enter'):
